@@ -568,7 +568,18 @@ def fuzz_campaign(prop, mode, tcfg, seed, work, repdir, violations, notes, agg):
     env = dict(os.environ, **SAN_ENV)
     env["VERIF_FUZZ_PROPERTY"] = prop
     env["VERIF_FUZZ_MODE"] = mode
-    info = {"jobs": jobs, "seconds_each": secs, "execs": 0, "cov": 0, "nontrivial": 0}
+    info = {"jobs": jobs, "seconds_each": secs, "execs": 0, "nontrivial": 0, "seed_corpus_files": 0}
+    # seed corpus: every hand-written / shrunk text case, encoded to the byte format (odd jobs start from it, even jobs from nothing)
+    seeds = os.path.join(work, "fz-seeds")
+    os.makedirs(seeds, exist_ok=True)
+    seqb = build("seq")
+    n = 0
+    for d, _, fs in os.walk(os.path.join(ROOT, "corpus")):
+        for f in sorted(fs):
+            if f.endswith(".case"):
+                n += 1
+                subprocess.run([seqb, "encode", os.path.join(d, f), os.path.join(seeds, "s%03d" % n)], capture_output=True)
+    info["seed_corpus_files"] = len(os.listdir(seeds))
 
     def one(j):
         cdir = os.path.join(work, "fz-corpus-%d" % j)
@@ -578,8 +589,7 @@ def fuzz_campaign(prop, mode, tcfg, seed, work, repdir, violations, notes, agg):
         e = dict(env)
         e["VERIF_FUZZ_STATS"] = os.path.join(work, "fz-stats-%d.txt" % j)
         e["VERIF_FUZZ_KIND"] = str(j % 10) if tcfg.get("fuzz_per_kind", True) else "-1"
-        seeds = os.path.join(ROOT, "corpus", "fuzz-seeds")
-        cmd = [binp, cdir] + ([seeds] if (j % 2 == 1 and os.path.isdir(seeds)) else []) + [
+        cmd = [binp, cdir] + ([seeds] if (j % 2 == 1 and os.listdir(seeds)) else []) + [
             "-max_total_time=%d" % secs, "-seed=%d" % (seed * 131 + j + 1), "-max_len=512", "-len_control=20",
             "-artifact_prefix=" + adir, "-print_final_stats=1", "-timeout=20", "-rss_limit_mb=3000", "-verbosity=0"]
         p = subprocess.run(cmd, capture_output=True, text=True, env=e, timeout=secs + 300)
